@@ -698,3 +698,136 @@ Proof.
     pose proof (split_aux_length stdin []) as H2. unfold split_script.
     destruct arg as [s|]; simpl in *; lia.
 Qed.
+
+(* ------------------------------------------------------------------ *)
+(** * Transport independence *)
+
+(** The meaning of a list of (trimmed, non-blank) command lines. *)
+Fixpoint events (ls : list (list N)) : list event :=
+  match ls with
+  | [] => []
+  | l :: r =>
+      match try_from l with
+      | Ok c => EvCommand c :: events r
+      | Err e => EvError e :: events r
+      | ExitP c => [EvExit c]
+      | Panic w => [EvPanic w]
+      end
+  end.
+
+Lemma run_raw_events : forall ls,
+  run_raw ls = events (map trim (filter (fun l => negb (is_blank l)) ls)).
+Proof.
+  induction ls as [|raw ls IH]; [reflexivity|].
+  simpl. unfold parse_line, is_blank. destruct (trim raw) as [|c t] eqn:E; simpl.
+  - exact IH.
+  - rewrite E. destruct (try_from (c :: t)); rewrite ?IH; reflexivity.
+Qed.
+
+Theorem session_meaning : forall arg stdin,
+  session arg stdin = events (script_lines (arg_text arg) ++ script_lines stdin).
+Proof.
+  intros. rewrite session_raw, run_raw_events. unfold script_lines.
+  rewrite filter_app, map_app. reflexivity.
+Qed.
+
+Lemma filter_split_app : forall d b, is_delim d = true -> forall a cur,
+  filter (fun l => negb (is_blank l)) (split_aux (a ++ d :: b) cur) =
+  filter (fun l => negb (is_blank l)) (split_aux a cur) ++
+  filter (fun l => negb (is_blank l)) (split_aux b []).
+Proof.
+  intros d b Hd. induction a as [|c a IH]; intros cur.
+  - simpl. rewrite Hd. destruct cur as [|x cur]; [reflexivity|].
+    change (rev (x :: cur) :: split_aux b []) with ([rev (x :: cur)] ++ split_aux b []).
+    rewrite filter_app. reflexivity.
+  - simpl. destruct (is_delim c).
+    + simpl. rewrite IH. destruct (negb (is_blank (rev cur))); reflexivity.
+    + apply IH.
+Qed.
+
+Lemma script_lines_delim : forall a d b, is_delim d = true ->
+  script_lines (a ++ d :: b) = script_lines a ++ script_lines b.
+Proof.
+  intros a d b Hd. unfold script_lines, split_script.
+  rewrite (filter_split_app d b Hd a []), map_app. reflexivity.
+Qed.
+
+(** A renaming of separators: maps separators to separators and leaves everything else alone. *)
+Definition sep_renaming (f : N -> N) : Prop :=
+  (forall c, is_delim c = true -> is_delim (f c) = true) /\ (forall c, is_delim c = false -> f c = c).
+
+Lemma split_aux_renaming : forall f, sep_renaming f -> forall s cur,
+  split_aux (map f s) cur = split_aux s cur.
+Proof.
+  intros f [H1 H2]. induction s as [|c s IH]; intros cur; [reflexivity|].
+  simpl. destruct (is_delim c) eqn:E.
+  - rewrite (H1 c E), IH. reflexivity.
+  - rewrite (H2 c E), E. apply IH.
+Qed.
+
+Lemma script_lines_renaming : forall f, sep_renaming f -> forall s,
+  script_lines (map f s) = script_lines s.
+Proof.
+  intros f Hf s. unfold script_lines, split_script. rewrite (split_aux_renaming f Hf). reflexivity.
+Qed.
+
+(** `;` for newline and newline for `;` *)
+Definition swap_separators (c : N) : N := if c =? 59 then 10 else if c =? 10 then 59 else c.
+Definition all_newlines (c : N) : N := if c =? 59 then 10 else c.
+Definition all_semicolons (c : N) : N := if c =? 10 then 59 else c.
+
+Lemma swap_separators_renaming : sep_renaming swap_separators.
+Proof.
+  split; intros c; unfold is_delim, swap_separators; cmp; simpl; intros; try discriminate; try reflexivity; try lia.
+Qed.
+Lemma all_newlines_renaming : sep_renaming all_newlines.
+Proof.
+  split; intros c; unfold is_delim, all_newlines; cmp; simpl; intros; try discriminate; try reflexivity; try lia.
+Qed.
+Lemma all_semicolons_renaming : sep_renaming all_semicolons.
+Proof.
+  split; intros c; unfold is_delim, all_semicolons; cmp; simpl; intros; try discriminate; try reflexivity; try lia.
+Qed.
+
+Theorem transport_independent :
+  (* the meaning of a session is the meaning of its command lines, the argument's first *)
+  (forall arg stdin,
+     session arg stdin = events (script_lines (arg_text arg) ++ script_lines stdin)) /\
+  (* --command and standard input are the same transport *)
+  (forall s, session (Some s) [] = session None s) /\
+  (* a script may be split at any separator between the argument and standard input *)
+  (forall a d b, is_delim d = true ->
+     session (Some a) b = session None (a ++ d :: b) /\
+     session (Some a) b = session (Some (a ++ d :: b)) [] /\
+     session (Some (a ++ [d])) b = session (Some a) b) /\
+  (* `;` and newline are interchangeable *)
+  (forall f, sep_renaming f -> forall arg stdin,
+     session (option_map (map f) arg) (map f stdin) = session arg stdin).
+Proof.
+  split; [exact session_meaning|]. split; [|split].
+  - intros s. rewrite !session_meaning. simpl. rewrite app_nil_r. reflexivity.
+  - intros a d b Hd. rewrite !session_meaning. simpl arg_text.
+    rewrite (script_lines_delim a d b Hd). change (script_lines []) with (@nil (list N)).
+    rewrite app_nil_r. repeat split; try reflexivity.
+    rewrite (script_lines_delim a d [] Hd). change (script_lines []) with (@nil (list N)).
+    rewrite app_nil_r. reflexivity.
+  - intros f Hf arg stdin. rewrite !session_meaning.
+    rewrite (script_lines_renaming f Hf). destruct arg as [s|]; simpl; [|reflexivity].
+    rewrite (script_lines_renaming f Hf). reflexivity.
+Qed.
+
+(** A rejected line has no effect on what the debugger is given to execute. *)
+Fixpoint commands_of (evs : list event) : list command :=
+  match evs with
+  | [] => []
+  | EvCommand c :: r => c :: commands_of r
+  | _ :: r => commands_of r
+  end.
+
+Theorem rejected_line_no_effect : forall ls1 l e ls2, try_from l = Err e ->
+  commands_of (events (ls1 ++ l :: ls2)) = commands_of (events (ls1 ++ ls2)).
+Proof.
+  induction ls1 as [|x ls1 IH]; intros l e ls2 H; simpl.
+  - rewrite H. reflexivity.
+  - destruct (try_from x); simpl; try reflexivity; rewrite (IH l e ls2 H); reflexivity.
+Qed.
